@@ -18,7 +18,7 @@ LEAN_MODULES = ["Properties.C19", "Properties.Prov.Decorate", "Properties.CoreEv
 NEEDS_DTYPES = False
 LEVEL = "proof"
 RULE = (
-    "a generated family of 19 torch modules (1-3 tensor parameters, optional parameter, tuple return, multi-axis, literal-axis (left and right of the marker, named) and expression annotations using every operator and function of the grammar, named expressions, "
+    "a generated family of 21 torch modules (1-3 tensor parameters, optional parameter, tuple return, multi-axis, literal-axis (left and right of the marker, named) and expression annotations using every operator and function of the grammar, named expressions, "
     "free scope provider (also one whose mapping changes after the first call), a named group covering no axis) x {eager, torch.jit.trace with positional and with keyword example inputs, torch.jit.script, torch.compile(backend='eager')} (thorough adds aot_eager) x "
     "{conforming input: outputs torch.equal to the undecorated twin's; non-conforming input: the dltype error class under eager, script "
     "and compile}. non-trivial = every (module, mode, input kind) triple"
@@ -130,6 +130,16 @@ class M19(torch.nn.Module):
     def forward(self, x: Annotated[torch.Tensor, dltype.FloatTensor["b k"]]) -> Annotated[torch.Tensor, dltype.FloatTensor["b k"]]:
         return x * 3
 
+class M20(torch.nn.Module):
+    DEC
+    def forward(self, x: Annotated[torch.Tensor, dltype.FloatTensor["b n"]]) -> Annotated[torch.Tensor, dltype.FloatTensor["b n/3 n-n/3*3"]]:
+        return x[:, : x.shape[1] // 3].unsqueeze(-1)[:, :, :0]
+
+class M21(torch.nn.Module):
+    DEC
+    def forward(module, x: Annotated[torch.Tensor, dltype.FloatTensor["b c"]]) -> Annotated[torch.Tensor, dltype.FloatTensor["b c"]]:
+        return x + 1
+
 class M8(torch.nn.Module):
     DEC
     def forward(self, x: Annotated[torch.Tensor, dltype.FloatTensor["b c"]], m: Optional[Annotated[torch.Tensor, dltype.FloatTensor["b c"]]] = None) -> Annotated[torch.Tensor, dltype.FloatTensor["b c"]]:
@@ -143,10 +153,34 @@ def family():
     import torch
 
     dltype = impl.dltype
-    dec_ns: dict = {}
-    und_ns: dict = {}
-    exec(SRC.replace("DECP", "@dltype.dltyped(PROV)").replace("DECQ", "@dltype.dltyped(PROV2)").replace("DEC", "@dltype.dltyped()"), dec_ns)  # noqa: S102
-    exec(SRC.replace("DECP", "").replace("DECQ", "").replace("DEC", ""), und_ns)  # noqa: S102
+    # the two families are real modules on disk (TorchScript compiles from SOURCE: a twin without a source file could never be
+    # scripted, and a failure of the decorated module to script could not be told from that)
+    import importlib.util
+    import os
+    import sys
+
+    import common
+
+    d = common.workdir(PROP)
+
+    def load(name, text):
+        path = os.path.join(d, name + ".py")
+        with open(path, "w") as fh:
+            fh.write(text)
+        spec = importlib.util.spec_from_file_location(name, path)
+        mod = importlib.util.module_from_spec(spec)
+        sys.modules[name] = mod
+        spec.loader.exec_module(mod)
+        return mod.__dict__
+
+    dec_ns = load("verif_c19_decorated", SRC.replace("DECP", "@dltype.dltyped(PROV)").replace("DECQ", "@dltype.dltyped(PROV2)").replace("DEC", "@dltype.dltyped()"))
+    und_ns = load("verif_c19_twin", SRC.replace("DECP", "").replace("DECQ", "").replace("DEC", ""))
+    # TorchScript does not read `Annotated[...]` hints at all (that is why dltype hides its wrapper from it): the twin that scripting
+    # is compared with carries the bare tensor types
+    import re
+
+    plain = re.sub(r"Annotated\[torch\.Tensor, dltype\.[A-Za-z0-9]+\[\"[^\"]*\"\]\]", "torch.Tensor", SRC.replace("DECP", "").replace("DECQ", "").replace("DEC", ""))
+    und_ns["__plain__"] = load("verif_c19_plain_twin", plain)
     g = torch.Generator().manual_seed(0)
     r = lambda *s: torch.rand(*s, generator=g)  # noqa: E731
     # M19's provider changes what it returns after the decorated forward has run once: the value at call time counts
@@ -175,6 +209,8 @@ def family():
         "M17": ((r(3, 2, 5),), (r(4, 2, 5),)),
         "M18": ((r(3), r(4)), (r(3), r(2, 4))),          # the group covers no axis at all / covers none in x and one in y
         "M19": ((r(2, 5),), (r(2, 3),)),
+        "M20": ((torch.zeros(0, 3 * (2**24 + 1)),), None),   # an axis longer than float32 counts exactly (no memory: the other axis is 0)
+        "M21": ((r(2, 3),), (r(2, 3, 1),)),                  # the receiver is not called `self`
     }
     return dec_ns, und_ns, inputs
 
@@ -199,7 +235,7 @@ def custom(run, tier):
     for name, (good, bad) in inputs.items():
         D, U = dec_ns[name], und_ns[name]
         ref = U()(*good)
-        pnames = [p for p in inspect.signature(U.forward).parameters if p != "self"][: len(good)]
+        pnames = list(inspect.signature(U.forward).parameters)[1:][: len(good)]   # (the receiver is the first parameter, whatever its name)
         for mode in modes:
             line = f"TORCH\t{name}\t{mode}"
 
@@ -231,7 +267,7 @@ def custom(run, tier):
             if obs != "equal":
                 # is it the decoration? the undecorated twin must capture fine
                 try:
-                    mu = make(U)
+                    mu = make(und_ns["__plain__"][name] if mode == "script" else U)
                     mu(**dict(zip(pnames, good))) if mode == "trace-kwargs" else mu(*good)
                     run.findings.append(Finding("failing-input", f"{name} under {mode}: decorated module {obs}, the undecorated twin captures and runs", Case(line + "\tconforming", "torch"), obs))
                 except Exception:  # noqa: BLE001
